@@ -315,4 +315,13 @@ theorem highlight_single (s : List Char) (a b ctx : Nat) (hab : a ≤ b) :
   have h2 : ¬ (a ≥ b + 1) := by omega
   simp [h1, h2]
 
+
+/-! ### raise_error / update_positions -/
+
+theorem slice_eq_pySlice (sql : Sql) (a b : Nat) : slice sql a b = pySlice (sqlText sql) a b := by
+  simp [slice, pySlice, sqlText, strOf, List.map_drop, List.map_take]
+
+theorem sqlText_length (sql : Sql) : (sqlText sql).length = sql.size := by
+  simp [sqlText, strOf]
+
 end SqlglotModel.Lex
